@@ -103,3 +103,14 @@ func SignWithNonce(k *KeyPair, data []byte, nonce uint64) [64]byte {
 	s.FillBytes(sig[32:])
 	return sig
 }
+
+// MalleateSig returns the other root of an ECDSA signature (r, N-s). Both roots
+// satisfy the verification equation; the repository's verifier (go-ethereum's
+// VerifySignature) accepts the low root only, so the result is invalid for it.
+func MalleateSig(sig [64]byte) [64]byte {
+	sv := new(big.Int).SetBytes(sig[32:])
+	sv.Sub(crypto.S256().Params().N, sv)
+	out := sig
+	sv.FillBytes(out[32:])
+	return out
+}
